@@ -148,6 +148,39 @@ def run_guarded(mod, sc, wall: float = 30.0):
         signal.setitimer(signal.ITIMER_REAL, 0)
 
 
+def _coverage_start():
+    """Reach measurement (selftest/reach.py): with VERIF_COVERAGE_DIR set, every line of urllib3 a worker executes is recorded once
+    (sys.monitoring, each location switched off after its first hit).  Never set by the registered commands."""
+    d = os.environ.get("VERIF_COVERAGE_DIR")
+    if not d:
+        return None
+    import sys as _sys
+
+    mon = _sys.monitoring
+    seen = set()
+    marker = os.sep + "urllib3" + os.sep
+
+    def cb(code, line):
+        fn = code.co_filename
+        if marker in fn:
+            seen.add((fn[fn.rindex(marker) + len(marker):], line))
+        return mon.DISABLE
+
+    mon.use_tool_id(4, "verif-reach")
+    mon.register_callback(4, mon.events.LINE, cb)
+    mon.set_events(4, mon.events.LINE)
+    return seen
+
+
+def _coverage_dump(seen, pid, lo):
+    if seen is None:
+        return
+    d = os.environ["VERIF_COVERAGE_DIR"]
+    os.makedirs(d, exist_ok=True)
+    with open(os.path.join(d, f"{pid}-{lo}.json"), "w") as f:
+        json.dump(sorted(seen), f)
+
+
 def _worker(pid: str, seed: int, tier: str, lo: int, hi: int, stride: int, deadline: float, resample: int):
     try:
         faulthandler.enable()
@@ -161,6 +194,7 @@ def _worker(pid: str, seed: int, tier: str, lo: int, hi: int, stride: int, deadl
         if hasattr(mod, "warmup"):
             mod.warmup()
         W.freeze_heap()
+        cov = _coverage_start()
         agg = dict(
             evals=0, traces=set(), faults=collections.Counter(), probes=collections.Counter(), sim_s=0.0, viol=[], kf_hits=collections.Counter(),
             resampled=0, diverged=[], samples=[], indices=0, steps=0, stopped_early=False,
@@ -195,6 +229,7 @@ def _worker(pid: str, seed: int, tier: str, lo: int, hi: int, stride: int, deadl
                         if sum(1 for v in agg["viol"] if v[0] == cls) < 3:
                             agg["viol"].append((cls, detail, dict(sc, _where=[lo, stride, k, j])))
         faulthandler.cancel_dump_traceback_later()
+        _coverage_dump(cov, pid, lo)
         return ("ok", agg)
     except BaseException as e:  # harness failure inside a worker
         return ("error", f"{type(e).__name__}: {e}\n{traceback.format_exc()}")
